@@ -1,3 +1,26 @@
+(* C09  Each JFA training phase is exact EM: its marginal likelihood never decreases.
+   Proved here: the D phase in full (any numbers of components, features, classes, sessions) and its
+   scalar core; the V and U phases for rank > 1 need ln det A <= tr A - n (no determinant theory over R
+   is installed) and are validated numerically by the check - see DESIGN.md. *)
 From Coq Require Import Reals List.
-Theorem placeholder : True. Proof. exact I. Qed.
-Print Assumptions placeholder.
+From BLE Require Import Num.InstR Model.FA Proofs.RLemmas Proofs.FAEnroll Proofs.JFATrain.
+Import ListNotations FR.
+Open Scope R_scope.
+
+Theorem C09_scalar_factor_analysis_em_monotone (d s : R) (ng : list (R * R)) :
+  0 < s -> Forall (fun p => 0 <= fst p) ng ->
+  0 < rsum (map (fun p => fst p * (/ (1 + d * d * fst p / s) + ((d / s) * snd p / (1 + d * d * fst p / s)) * ((d / s) * snd p / (1 + d * d * fst p / s)))) ng) ->
+  rsum (map (fun p => d_cell d s (fst p) (snd p)) ng)
+  <= rsum (map (fun p => d_cell (em_d_scalar d s ng) s (fst p) (snd p)) ng).
+Proof. exact (scalar_d_monotone d s ng). Qed.
+Print Assumptions C09_scalar_factor_analysis_em_monotone.
+
+Theorem C09_phase_D_iteration_monotone (C D rU rV : nat) (u : ubm) (F : fa)
+        (classes : list (list gstat)) (xss : list (list (list R))) (ys : list (option (list R))) :
+  shapes_ok C D rU rV u F classes xss ys ->
+  Forall (fun a1 => 0 < a1) (fst (acc_d rU D u F classes xss ys)) ->
+  let F' := jfa_iter_d rU D u classes xss ys F in
+  fU F' = fU F /\ fV F' = fV F /\ length (fD F') = (C * D)%nat
+  /\ marginal_d D u F (fD F) classes xss ys <= marginal_d D u F (fD F') classes xss ys.
+Proof. exact (phase_d_monotone C D rU rV u F classes xss ys). Qed.
+Print Assumptions C09_phase_D_iteration_monotone.
